@@ -1,6 +1,185 @@
-(* C08 -- placeholder while the harness is being brought up *)
+(* C08 -- a lazy stack equals the dense stack and is a write-through view of its members.
+   Property theorems only: each is closed by [exact] of a lemma proved in Proofs/C08_*.v and followed by
+   Print Assumptions (parsed by the harness on every run).
+   Vocabulary (Spec/C08_Dense.v): [arr] array expressions; [Stack sd _ parts] is the DENSE stack (coordinate insertion);
+   [Index idx a] is torch indexing ([res_shape]/[src_of], validated against real torch on every run);
+   [shape_of]/[at_] give the batch size and, for every position, which element of which member sits there.
+   Model (Model/C08_Lazy.v, C08_Write.v): what LazyStackedTensorDict builds out of its members. *)
 From Coq Require Import ZArith List Bool.
-From TD Require Import Spec.C08_Dense Model.C08_Lazy.
-Theorem C08_compute_batch_size : forall bs sd n, compute_batch_size bs sd n = insert_at sd n bs.
-Proof. reflexivity. Qed.
+Import ListNotations.
+From TD Require Import Spec.PySlice Spec.C08_Dense Model.C08_Lazy Model.C08_Write
+  Proofs.C08_CoordP Proofs.C08_IndexP Proofs.C08_ShapeP Proofs.C08_CatP Proofs.C08_WriteP.
+Open Scope Z_scope.
+
+(* ---- the stack itself ------------------------------------------------------------------------------------- *)
+(* _compute_batch_size: the batch size of a lazy stack is the dense stack's, for every rank / stack dim / member count *)
+Theorem C08_compute_batch_size : forall sd bs0 parts bs,
+  parts <> [] -> Forall (fun p => shape_of p = Some bs) parts -> (sd <= List.length bs)%nat ->
+  shape_of (Stack sd bs0 parts) = Some (compute_batch_size bs sd (lenZ parts)).
+Proof. exact shape_of_stack. Qed.
 Print Assumptions C08_compute_batch_size.
+
+(* the stack is coordinate insertion: element I is element (I without coordinate sd) of member I[sd] *)
+Theorem C08_stack_is_coordinate_insertion : forall sd bs0 parts I,
+  at_ (Stack sd bs0 parts) I =
+  match nth_error I sd with
+  | Some k => match nthZ parts k with Some x => at_ x (remove_at sd I) | None => None end
+  | None => None
+  end.
+Proof. exact at_stack. Qed.
+Print Assumptions C08_stack_is_coordinate_insertion.
+
+(* ---- reads by index ---------------------------------------------------------------------------------------- *)
+(* split_index_basic [full]: for EVERY index made of ints, slices and None (any length, any rank), EVERY stack dim,
+   member count and nesting depth (stacks of stacks of ...), whenever torch accepts the index on the dense stack and
+   lazy.__getitem__ returns, what it returns denotes dense[idx]: same batch size, same element at every position *)
+Theorem C08_getitem_basic : forall fuel self bs idx a' rsd,
+  wf_tree self bs -> basic idx -> res_shape idx bs = Some rsd ->
+  lz_getitem fuel self idx = Ok a' -> equiv a' (Index idx self).
+Proof. exact getitem_basic. Qed.
+Print Assumptions C08_getitem_basic.
+
+(* the cursor arithmetic behind it: for a slice on the stack dim _split_index selects members range(n)[a:b:c], hands
+   every member the index without that item, counts the ints / Nones before the stack dim ... *)
+Theorem C08_split_index_slice : forall sd n shape pre a b c post,
+  basic pre -> consumed pre = sd -> Forall post_item post -> one_adv (pre ++ ISl a b c :: post) -> (step_of c =? 0) = false ->
+  split_index sd n shape (pre ++ ISl a b c :: post) =
+  Ok (mk_split (KDict (map (fun j => (j, pre ++ post)) (range_elems (py_indices a b (step_of c) (Z.of_nat n)))))
+               (count_int pre) (count_none pre) false).
+Proof. exact split_index_slice. Qed.
+Print Assumptions C08_split_index_slice.
+
+(* ... and the new stack dim  stack_dim - num_single + num_none  is the number of result dims produced before it *)
+Theorem C08_new_stack_dim : forall pre, basic pre ->
+  Z.of_nat (consumed pre) - count_int pre + count_none pre = Z.of_nat (rdims_l pre).
+Proof. exact nsd_basic. Qed.
+Print Assumptions C08_new_stack_dim.
+
+(* split_index_one_adv [partial]: ONE advanced index (integer tensor of any rank and any values, boolean mask of any
+   rank >= 1) located AFTER the stack dim, ints/slices/None before it, int or slice on it; flat stack of plain members *)
+Theorem C08_getitem_adv_after_stack_dim : forall fuel sd bs0 parts bs pre x post a' rsd,
+  parts <> [] -> Forall (fun p => wf_tree p bs /\ is_stack p = false) parts -> (sd <= List.length bs)%nat ->
+  basic pre -> consumed pre = sd -> ((exists j, x = IInt j) \/ (exists a b c, x = ISl a b c)) -> Forall post_item post ->
+  res_shape (pre ++ x :: post) (insert_at sd (lenZ parts) bs) = Some rsd ->
+  lz_getitem (S fuel) (Stack sd bs0 parts) (pre ++ x :: post) = Ok a' ->
+  equiv a' (Index (pre ++ x :: post) (Stack sd bs0 parts)).
+Proof. exact getitem_adv_after. Qed.
+Print Assumptions C08_getitem_adv_after_stack_dim.
+
+(* the full statement (any single advanced index, also before / on the stack dim, masks spanning it) is NOT proved:
+   those placements are covered by the correspondence run only; several are refuted by the code (findings D28-D31) *)
+Definition C08_getitem_one_adv_full_statement : Prop :=
+  forall fuel self bs idx a' rsd,
+    wf_tree self bs -> Forall (fun it => is_ell it = false) idx -> one_adv idx -> res_shape idx bs = Some rsd ->
+    lz_getitem fuel self idx = Ok a' -> equiv a' (Index idx self).
+
+(* ---- writes by index --------------------------------------------------------------------------------------- *)
+(* write_through [partial]: lazy[pre, a:b:c, post] = V performs exactly one in-place write per selected member:
+   member range(n)[a:b:c][k] receives, at the sub-index the read uses, the k-th slice of V along the dim where the
+   read puts the stack dim -- so the write lands where C08_getitem_basic reads, and no member object is replaced *)
+Theorem C08_setitem_slice_plan : forall fuel sd bs0 parts bs pre a b c post v vsh plan,
+  parts <> [] -> Forall (fun p => shape_of p = Some bs /\ is_stack p = false) parts -> (sd <= List.length bs)%nat ->
+  basic pre -> consumed pre = sd -> basic post -> pre ++ post <> [] -> (step_of c =? 0) = false ->
+  shape_of v = Some vsh -> res_shape (pre ++ ISl a b c :: post) (insert_at sd (lenZ parts) bs) = Some vsh ->
+  lz_setitem (S fuel) (Stack sd bs0 parts) (pre ++ ISl a b c :: post) v = Ok plan ->
+  exists ms, Forall2 (fun j m => member parts j = Ok m) (range_elems (py_indices a b (step_of c) (lenZ parts))) ms /\
+             plan = write_plan_of ms (pre ++ post) (rdims_l pre) v.
+Proof. exact setitem_slice_plan. Qed.
+Print Assumptions C08_setitem_slice_plan.
+
+(* write_through [refuted] (D23): an integer tensor that is the whole index on stack dim 0 REPLACES member objects *)
+Theorem C08_write_through_refuted :
+  exists self idx vsh plan slot src,
+    wf_tree self [2; 3] /\ run_setitem 3 self idx vsh = Ok plan /\ In (WReplace slot src) plan.
+Proof. exact write_through_refuted. Qed.
+Print Assumptions C08_write_through_refuted.
+
+(* ---- shape operations -------------------------------------------------------------------------------------- *)
+(* lazy_shape_ops / transpose [partial]: every rank, every stack dim, every pair of dims outside the D26 region *)
+Theorem C08_transpose_partial : forall sd bs0 parts bs,
+  parts <> [] -> Forall (fun p => shape_of p = Some bs) parts -> Forall (fun p => is_stack p = false) parts ->
+  (sd <= List.length bs)%nat ->
+  forall fuel d0 d1 a',
+  (d0 < d1 < S (List.length bs))%nat ->
+  negb ((Nat.eqb d0 sd && (d0 + 3 <=? d1)%nat) || (Nat.eqb d1 sd && (d0 + 2 <=? d1)%nat)) = true ->
+  lz_transpose (S fuel) (Stack sd bs0 parts) (Z.of_nat d0) (Z.of_nat d1) = Ok a' ->
+  equiv_in a' (Transp d0 d1 (Stack sd bs0 parts)).
+Proof. exact transpose_partial. Qed.
+Print Assumptions C08_transpose_partial.
+
+(* [refuted] (D26): inside the region the result does not even have the dense batch size *)
+Theorem C08_transpose_refuted :
+  exists self d0 d1 a', wf_tree self [2; 2; 3; 1] /\ lz_transpose 3 self d0 d1 = Ok a' /\
+                        shape_of a' <> shape_of (Transp (Z.to_nat d0) (Z.to_nat d1) self).
+Proof. exact transpose_refuted. Qed.
+Print Assumptions C08_transpose_refuted.
+
+Definition C08_lazy_shape_ops_full_statement : Prop :=
+  forall sd bs0 parts bs fuel d0 d1 a',
+    parts <> [] -> Forall (fun p => shape_of p = Some bs) parts -> (sd <= List.length bs)%nat ->
+    (d0 < d1 < S (List.length bs))%nat ->
+    lz_transpose (S fuel) (Stack sd bs0 parts) (Z.of_nat d0) (Z.of_nat d1) = Ok a' ->
+    equiv_in a' (Transp d0 d1 (Stack sd bs0 parts)).
+(* permute / squeeze / unsqueeze / unbind / split / repeat: model + correspondence only (no theorem yet) *)
+
+(* ---- cat(out=) offsets, insert / append -------------------------------------------------------------------- *)
+(* lazy_cat_offsets: with `init_idx += n` operand k goes to members [sum_{i<k} n_i, sum_{i<=k} n_i) ... *)
+Theorem C08_cat_offsets_fixed : forall sizes n_out init,
+  Forall (fun s => 0 <= s) sizes -> 0 <= init -> init + sumZ sizes <= n_out ->
+  cat_out_slices_gen true n_out init sizes = offsets init sizes.
+Proof. exact cat_offsets_fixed. Qed.
+Print Assumptions C08_cat_offsets_fixed.
+
+(* ... today's `init_idx += init_idx + n` is right for at most two operands [partial] ... *)
+Theorem C08_cat_offsets_partial : forall sizes n_out,
+  (List.length sizes <= 2)%nat -> Forall (fun s => 0 <= s) sizes -> sumZ sizes <= n_out ->
+  cat_out_slices_gen false n_out 0 sizes = cat_spec_slices sizes.
+Proof. exact cat_offsets_partial. Qed.
+Print Assumptions C08_cat_offsets_partial.
+
+(* ... and wrong from the third operand on [refuted] (D13) *)
+Theorem C08_cat_offsets_refuted :
+  exists sizes n_out, Forall (fun s => 0 < s) sizes /\ sumZ sizes = n_out /\
+                      cat_out_slices_gen false n_out 0 sizes <> cat_spec_slices sizes.
+Proof. exact cat_offsets_refuted. Qed.
+Print Assumptions C08_cat_offsets_refuted.
+
+(* insert_append_bs: list.insert on the member list, batch size recomputed with the new member count *)
+Theorem C08_insert_append_bs : forall sd bs0 parts bs i x a',
+  parts <> [] -> Forall (fun p => shape_of p = Some bs) parts -> shape_of x = Some bs -> (sd <= List.length bs)%nat ->
+  lz_insert (Stack sd bs0 parts) i x = Ok a' ->
+  a' = Stack sd bs0 (py_list_insert parts i x) /\ shape_of a' = Some (compute_batch_size bs sd (lenZ parts + 1)).
+Proof. exact insert_shape. Qed.
+Print Assumptions C08_insert_append_bs.
+
+(* ---- non-vacuity: concrete instances meeting the hypotheses ------------------------------------------------ *)
+Definition ex_tree : arr := Stack 1 [2; 2] [Leaf 0 [2; 2]; Leaf 1 [2; 2]; Leaf 2 [2; 2]].
+Example C08_ex_tree_wf : wf_tree ex_tree [2; 3; 2].
+Proof.
+  apply (wf_stack 1 [2; 2] [Leaf 0 [2; 2]; Leaf 1 [2; 2]; Leaf 2 [2; 2]] [2; 2]); [discriminate| |cbn; auto].
+  repeat constructor.
+Qed.
+(* lazy[None, 1, ::2, -1]: basic, legal (shape [1;2]), returns; the stack dim moves from 1 to 1 *)
+Example C08_ex_getitem :
+  let idx := [INone; IInt 1; ISl None None (Some 2); IInt (-1)] in
+  basic idx /\ res_shape idx [2; 3; 2] = Some [1; 2] /\
+  exists a', lz_getitem 3 ex_tree idx = Ok a' /\ shape_of a' = Some [1; 2] /\
+             map (at_ a') (all_indices [1; 2]) = [Some (0%nat, [1; 1]); Some (2%nat, [1; 1])].
+Proof. cbn zeta. split; [repeat constructor|]. split; [reflexivity|]. eexists. split; [vm_compute; reflexivity|]. split; reflexivity. Qed.
+(* nested: a stack of stacks *)
+Example C08_ex_nested :
+  let t := Stack 0 [2; 1] [Stack 1 [2] [Leaf 0 [2]]; Stack 1 [2] [Leaf 1 [2]]] in
+  exists a', lz_getitem 4 t [ISl (Some 1) None None; IInt 0; INone] = Ok a' /\ shape_of a' = Some [1; 1; 1].
+Proof. eexists. split; [vm_compute; reflexivity|reflexivity]. Qed.
+(* an integer tensor of rank 2 after the stack dim *)
+Example C08_ex_adv_after :
+  exists a', lz_getitem 3 ex_tree [ISl None None None; ISl (Some 1) None None; ITen [2; 1] [1; 0]] = Ok a' /\
+             shape_of a' = Some [2; 2; 2; 1].
+Proof. eexists. split; [vm_compute; reflexivity|reflexivity]. Qed.
+(* transpose: dims (0, 2) of a rank-3 stack with stack dim 1 are outside the D26 region and the call returns *)
+Example C08_ex_transpose :
+  negb ((Nat.eqb 0 1 && (0 + 3 <=? 2)%nat) || (Nat.eqb 2 1 && (0 + 2 <=? 2)%nat)) = true /\
+  exists a', lz_transpose 3 ex_tree 0 2 = Ok a' /\ shape_of a' = Some [2; 3; 2].
+Proof. split; [reflexivity|]. eexists. split; [vm_compute; reflexivity|reflexivity]. Qed.
+Example C08_ex_cat : cat_out_slices_gen false 4 0 [2; 2] = [(0, 2); (2, 4)] /\ cat_out_slices_gen false 3 0 [1; 1; 1] = [(0, 1); (1, 2); (3, 3)].
+Proof. split; reflexivity. Qed.
